@@ -411,7 +411,7 @@ def rule_allof(ctx: Ctx, rule: str = "C01.allof"):
             rep.check(ok, rule, fn.loc(), "async_all starts one evaluation per guard of the list, unfiltered", fn.key, base)
             break
     # registry delegates and answers True for a key with no guards
-    from ..shapes import canon_lookup, missing_fact
+    from ..shapes import canon_lookup, missing_fact, through_getitem
 
     for meth in ("all", "async_all"):
         reg = ctx.fn(f"CallbacksRegistry.{meth}")
@@ -426,6 +426,7 @@ def rule_allof(ctx: Ctx, rule: str = "C01.allof"):
                           "without consulting an executor)", reg.key, f"return {show(v)} with missing={miss}")
             else:
                 lk = canon_lookup(v.func.value, p.events) if isinstance(v, ast.Call) and isinstance(v.func, ast.Attribute) else None
+                lk = through_getitem(ctx, "CallbacksRegistry", lk)
                 ok = lk == ("self._registry", key) and v.func.attr == meth and [show(a) for a in v.args] == ["*args"]
                 rep.check(bool(ok), rule, reg.loc(), f"registry.{meth} delegates to the executor of that key", reg.key, f"return {show(v)}")
 
@@ -625,7 +626,9 @@ def rule_write(ctx: Ctx, rule: str = "C01.write"):
         rep.check(len(w) == 1 and show(w[0].x["value"]) == "value.value", rule, setter_s.loc(),
                   "the current_state setter stores the state's `value`", setter_s.key,
                   "; ".join(e.show() for e in w) or "no store")
-    rep.floor(rule, "state write sites", n_sites, 2 + len(k.engines))
+    # two setters + at least one engine-side assignment (shared by the engines or one each; every engine's executing
+    # paths are checked for exactly one WRITE below)
+    rep.floor(rule, "state write sites", n_sites, 3)
     for eng in k.engines:
         fn, tp, aps = activate_paths(ctx, eng)
         for ap in aps:
